@@ -107,6 +107,11 @@ def gen_cases(tier, seed):
     return cases
 
 
+def core_info_for_revert():
+    from sasmodels import core as sascore
+    return sascore.load_model_info("sphere")
+
+
 def run_case(case, rec):
     from sasmodels.convert import convert_model
     ver = tuple(case["version"])
@@ -122,6 +127,12 @@ def run_case(case, rec):
         pold = {o: 1.5 for o in pentry[1].values() if isinstance(o, str)}
         try:
             convert_model(pentry[0], pold, use_underscore=False, model_version=pver)
+        except Exception:
+            pass
+        # ... and a conversion in the other direction (current -> old names), which shares tables with this one
+        try:
+            from sasmodels.convert import revert_pars
+            revert_pars(core_info_for_revert(), {"radius": 40.0, "radius.width": 0.1})
         except Exception:
             pass
         rec.bucket("after-another-conversion", "after-conversion-of-same-model-name"
@@ -224,6 +235,10 @@ def run_case(case, rec):
                     if base.endswith(suf) and base[:-len(suf)] in nameset:
                         base = base[:-len(suf)]
                         break
+            if use_underscore and any(base.endswith(dot) for dot in UNDERSCORE):
+                # the caller asked for the name_pd* spelling: a dotted dispersity attribute is not a key of that scheme
+                bad.append(k)
+                continue
             if "." in base:
                 base = base.split(".")[0]
             if base not in nameset:
